@@ -47,7 +47,7 @@ def analyse(ctx, prop, name, tr, summ, mism, mon, stats):
     ctx.cov["evaluations"] += summ.get("ops", 0)
     ctx.cov["traces_validated_against_impl"] += summ.get("cases", 0)
 
-def run(ctx, prop, modules, nontrivial_keys, quick=(1500, 50), thorough=(30000, 70), extra_runs=None, secret="fake"):
+def run(ctx, prop, modules, nontrivial_keys, quick=(1500, 50), thorough=(30000, 70), extra_runs=None, secret="fake", modes=((), ())):
     ctx.extract()
     ctx.prove(modules)
     if ctx.tier == "thorough":
@@ -65,6 +65,8 @@ def run(ctx, prop, modules, nontrivial_keys, quick=(1500, 50), thorough=(30000, 
             n, ln = quick if ctx.tier == "quick" else thorough
             runs.append(("random", ["-mode", "random", "-cases", str(n), "-len", str(ln), "-secret", secret], {}))
             for r in (extra_runs or []): runs.append(r)
+            for mname in (modes[0] if ctx.tier == "quick" else modes[1]):
+                runs.append((mname, ["-mode", mname], {}))
         def do(runs, tag=""):
             for name, args, env in runs:
                 tr = os.path.join(ctx.work, (tag + name).replace("/", "_") + ".trace")
